@@ -180,3 +180,78 @@ func init() {
 		return nil
 	})
 }
+
+// rpc2: Client.Call / CallWithContext invoke the peer function the harness registered with
+// verifrt.NewRPCClient, synchronously; arguments and reply travel as JSON trees (A-RPC: blocking-mode rpc2
+// delivers calls and replies in order, one handler at a time per connection).
+func init() {
+	const rpc = "github.com/cenkalti/rpc2"
+	reg(rtPkg+".NewRPCClient", func(ex *exec, fr *frame, fn *ssa.Function, a []value) value {
+		ct := fn.Signature.Results().At(0).Type().Underlying().(*types.Pointer).Elem()
+		slot := new(value)
+		*slot = zero(ct)
+		if ex.rpcPeers == nil {
+			ex.rpcPeers = map[*value]value{}
+		}
+		ex.rpcPeers[slot] = a[0]
+		return slot
+	})
+	doCall := func(ex *exec, fr *frame, client *value, method value, args value, reply value) value {
+		peer, ok := ex.rpcPeers[client]
+		if !ok {
+			if client == nil {
+				panic(runtimeError("invalid memory address or nil pointer dereference"))
+			}
+			panic(unsupported("rpc2.Client.Call on a client not created by verifrt.NewRPCClient"))
+		}
+		ex.rpcCalls++
+		blob, merr := ex.jsonMarshal(fr, args.(iface))
+		if e := merr.(iface); e.t != nil {
+			return e
+		}
+		node := blob.(*jsonBlob).node
+		if node.kind == jLazy {
+			node = ex.resolveLazy(node)
+		}
+		var raw []value
+		if node.kind == jArr {
+			for _, c := range node.arr {
+				raw = append(raw, &jsonBlob{node: c})
+			}
+		} else {
+			raw = []value{&jsonBlob{node: node}}
+		}
+		res := ex.call(fr, 0, peer, []value{method, raw}).(tuple)
+		if e := res[1].(iface); e.t != nil {
+			return e
+		}
+		rv := res[0].(iface)
+		rblob, rerr := ex.jsonMarshal(fr, rv)
+		if e := rerr.(iface); e.t != nil {
+			return e
+		}
+		rp := reply.(iface)
+		if rp.t == nil {
+			return iface{}
+		}
+		return ex.jsonUnmarshal(fr, rblob, rp)
+	}
+	reg("(*"+rpc+".Client).Call", func(ex *exec, fr *frame, fn *ssa.Function, a []value) value {
+		return doCall(ex, fr, a[0].(*value), a[1], a[2], a[3])
+	})
+	reg("(*"+rpc+".Client).CallWithContext", func(ex *exec, fr *frame, fn *ssa.Function, a []value) value {
+		return doCall(ex, fr, a[0].(*value), a[2], a[3], a[4])
+	})
+	reg("(*"+rpc+".Client).Close", func(ex *exec, fr *frame, fn *ssa.Function, a []value) value { return iface{} })
+	reg("(*"+rpc+".Client).Handle", func(ex *exec, fr *frame, fn *ssa.Function, a []value) value { return nil })
+	reg("(*"+rpc+".Client).SetBlocking", func(ex *exec, fr *frame, fn *ssa.Function, a []value) value { return nil })
+	reg("(*"+rpc+".Client).Run", func(ex *exec, fr *frame, fn *ssa.Function, a []value) value { return nil })
+	reg("(*"+rpc+".Client).DisconnectNotify", func(ex *exec, fr *frame, fn *ssa.Function, a []value) value {
+		return &gochan{cap: 0, elemT: types.NewStruct(nil, nil)}
+	})
+	reg(rpc+".NewServer", returnZero)
+	reg("(*"+rpc+".Server).Handle", func(ex *exec, fr *frame, fn *ssa.Function, a []value) value { return nil })
+	reg("(*"+rpc+".Server).OnConnect", func(ex *exec, fr *frame, fn *ssa.Function, a []value) value { return nil })
+	reg("(*"+rpc+".Server).OnDisconnect", func(ex *exec, fr *frame, fn *ssa.Function, a []value) value { return nil })
+	reg(rtPkg+".RPCCalls", func(ex *exec, fr *frame, fn *ssa.Function, a []value) value { return ex.rpcCalls })
+}
